@@ -276,4 +276,68 @@ func init() {
 			return fmt.Sprint(*result), *result, nil
 		},
 	})
+	addFact(fact{
+		name:   "forkIdSkipsEmpty",
+		leanTy: "Bool",
+		deflt:  "true",
+		extract: func(repo string) (string, interface{}, error) {
+			_, f, err := parseFile(repo, "martian/core/fork.go")
+			if err != nil {
+				return "", nil, err
+			}
+			fd := findMethod(f, "ForkId", "forkId")
+			if fd == nil {
+				return "", nil, fmt.Errorf("ForkId.forkId not found")
+			}
+			// the first `if alen == 0 { ... }` (the `else if` after `alen < 0`):
+			// `continue` = the empty part is skipped, `return` = the id stops there.
+			var result *bool
+			var bad error
+			ast.Inspect(fd.Body, func(n ast.Node) bool {
+				if result != nil || bad != nil {
+					return false
+				}
+				is, ok := n.(*ast.IfStmt)
+				if !ok {
+					return true
+				}
+				be, ok := is.Cond.(*ast.BinaryExpr)
+				if !ok || be.Op != token.EQL {
+					return true
+				}
+				x, ok1 := be.X.(*ast.Ident)
+				y, ok2 := be.Y.(*ast.BasicLit)
+				if !ok1 || !ok2 || x.Name != "alen" || y.Value != "0" {
+					return true
+				}
+				if len(is.Body.List) == 0 {
+					bad = fmt.Errorf("empty body of `if alen == 0`")
+					return false
+				}
+				var v bool
+				switch st := is.Body.List[len(is.Body.List)-1].(type) {
+				case *ast.BranchStmt:
+					if st.Tok != token.CONTINUE {
+						bad = fmt.Errorf("unexpected branch statement in `if alen == 0`")
+						return false
+					}
+					v = true
+				case *ast.ReturnStmt:
+					v = false
+				default:
+					bad = fmt.Errorf("unrecognised body of `if alen == 0`")
+					return false
+				}
+				result = &v
+				return false
+			})
+			if bad != nil {
+				return "", nil, bad
+			}
+			if result == nil {
+				return "", nil, fmt.Errorf("`if alen == 0` not found in ForkId.forkId")
+			}
+			return fmt.Sprint(*result), *result, nil
+		},
+	})
 }
